@@ -309,7 +309,8 @@ def units(tier, seed):
     UNCOVERED[:] = ['variable-size item kinds (size is a sum over items; not under contract): ' +
                     ', '.join(sorted(c.__name__ for c in variable)),
                     'MutableSequence.remove (= del self[self.index(value)], a search loop plus __delitem__) is not under contract']
-    return out
+    from checks import foundation
+    return list(out) + foundation.units(tier, seed)
 
 
 FINDING_REPLAYS = {}
